@@ -1899,6 +1899,10 @@ class Variogram(object):
         """
         # handle sparse matrix
         if isinstance(self.distance_matrix, sparse.spmatrix):
+            # differences are taken in floating point, like pdist does for the
+            # dense case (unsigned integer values would wrap around)
+            values = np.asarray(values, dtype=float)
+
             # get triangular distance matrices
             c = r = self.triangular_distance_matrix
 
